@@ -49,7 +49,7 @@ type Engine struct {
 	contractSource string // "repo" or "mirror"
 	lockLevels map[string]int    // lock field name -> level
 	guards     map[string]string // guarded field array prefix -> mutex field name
-	immutable  map[string]bool
+	immutable  map[string][]string
 	confined   map[string]string
 	eventKinds map[string]bool
 	sweepLoops bool
@@ -81,7 +81,7 @@ func loadEngine(repo string) (*Engine, error) {
 		allTypes: map[string]*types.Package{}, funcSpecs: map[string]*FuncSpec{}, specFns: map[string]*SpecFn{},
 		ufs: map[string]*UFDecl{}, typeSpecs: map[string]*TypeSpec{}, funcs: map[string]*ssa.Function{},
 		staticVals: map[string]Val{}, lockLevels: map[string]int{}, guards: map[string]string{},
-		immutable: map[string]bool{}, confined: map[string]string{}, eventKinds: map[string]bool{},
+		immutable: map[string][]string{}, confined: map[string]string{}, eventKinds: map[string]bool{},
 	}
 	for i, p := range pkgs {
 		if spkgs[i] == nil {
@@ -242,8 +242,8 @@ func (e *Engine) loadContracts() error {
 					e.guards[tn+"."+f] = tn + "." + g.Mutex
 				}
 			}
-			for _, f := range t.Immutable {
-				e.immutable[tn+"."+f] = true
+			for f, ws := range t.Immutable {
+				e.immutable[tn+"."+f] = append([]string{}, ws...)
 			}
 			for f, owner := range t.Confined {
 				e.confined[tn+"."+f] = owner
@@ -282,7 +282,7 @@ func (e *Engine) guessArraySort(name string) Sort {
 		return ArrSort(SInt)
 	case name == "ghost.sent", name == "ghost.delivered":
 		return ArrSort(ArrSort(SInt))
-	case strings.HasPrefix(name, "ghost.gauge"), strings.HasPrefix(name, "ghost.ev:"):
+	case strings.HasPrefix(name, "ghost.gauge"), strings.HasPrefix(name, "ghost.ev:"), strings.HasPrefix(name, "ghost.evn:"):
 		return ArrSort(SInt)
 	case strings.HasPrefix(name, "once:"), name == "ghost.chanready", name == "ghost.ctxcancelled":
 		return ArrSort(SBool)
